@@ -5,10 +5,12 @@ import (
 	"fmt"
 	"reflect"
 	"strings"
+	"time"
 
 	"github.com/wkhere/bcl"
 
 	"verif/mc/fw"
+	"verif/mc/gen"
 	"verif/mc/impl"
 )
 
@@ -43,6 +45,8 @@ func revisit(i int) bool { return i >= 2 && (i&(i-1) == 0 || (i-1)&(i-2) == 0) }
 var subC16Soak = &fw.Sub{Name: "c16.soak", New: func() fw.Case { return &c16Soak{} }, Exec: func(cs fw.Case) *fw.Fail {
 	c := cs.(*c16Soak)
 	return fw.Guard(func() *fw.Fail {
+		t0 := time.Now()
+		defer func() { fw.Tally("soak_ms:"+c.Kind, time.Since(t0).Milliseconds()) }()
 		bad := func(i int, what, want, got string) *fw.Fail {
 			return fw.Failf(fmt.Sprintf("call %d of %d (%s) gives what it gives as a first call: %s", i, c.N, what, fw.Trunc(want, 300)), "%s", fw.Trunc(got, 300))
 		}
@@ -264,6 +268,28 @@ var subC16Soak = &fw.Sub{Name: "c16.soak", New: func() fw.Case { return &c16Soak
 					fw.Heartbeat()
 				}
 			}
+		case "parse-repeat-wide":
+			// sources with thousands of distinct identifiers / constants / lines compile to the same bytes every time
+			// (tables that evict, rehash or get iterated only behave differently once they are big)
+			for _, fam := range gen.DenseFamilies(c.N > 6000) {
+				if !strings.HasPrefix(fam.Name, "dense-idents-") && fam.Name != "dense-ints-3" && fam.Name != "dense-consts-330" && fam.Name != "dense-locals-330" {
+					continue
+				}
+				var first []byte
+				for rep := 0; rep < 6; rep++ {
+					p := impl.Parse(fam.Src)
+					if p.Err != nil {
+						return bad(rep, "Parse of "+fam.Name, "accepted", p.Log)
+					}
+					d, _ := impl.Dump(p.Prog)
+					if rep == 0 {
+						first = d
+					} else if !bytes.Equal(d, first) {
+						return bad(rep, "Parse of "+fam.Name+" again, Dump", fmt.Sprintf("the same %d bytes", len(first)), fmt.Sprintf("%d other bytes", len(d)))
+					}
+				}
+				fw.Heartbeat()
+			}
 		default:
 			return fw.Failf("known soak kind", "%s", c.Kind)
 		}
@@ -274,7 +300,7 @@ var subC16Soak = &fw.Sub{Name: "c16.soak", New: func() fw.Case { return &c16Soak
 	})
 }}
 
-var c16SoakKinds = []string{"interpret-distinct", "parse-dump-load-exec-distinct", "execute-repeat", "execute-repeat-err", "load-in-place", "unmarshal-types", "parsefile-distinct", "diagnostics-distinct"}
+var c16SoakKinds = []string{"interpret-distinct", "parse-dump-load-exec-distinct", "execute-repeat", "execute-repeat-err", "load-in-place", "unmarshal-types", "parsefile-distinct", "diagnostics-distinct", "parse-repeat-wide"}
 
 func c16SoakCases(thorough bool) []*c16Soak {
 	var cs []*c16Soak
@@ -283,12 +309,14 @@ func c16SoakCases(thorough bool) []*c16Soak {
 		switch k {
 		case "unmarshal-types":
 			n = 3000
+		case "parse-repeat-wide":
+			n = 6000 // the widest source (thorough: 20000 identifiers)
 		case "parsefile-distinct", "parse-dump-load-exec-distinct", "diagnostics-distinct":
 			n = 20000
 		}
 		if thorough {
 			n *= 4
-			if k == "unmarshal-types" {
+			if k == "unmarshal-types" || k == "parse-repeat-wide" {
 				n = 20000
 			}
 		}
